@@ -45,7 +45,7 @@ OPS = ("fit", "fit", "fit", "transform", "inverse", "query", "compute", "seriali
 def required(tier):
     return {
         "mon": ["answers_compared", "inputs_immutability_checked", "refits"],
-        "cover": [f"cls:{c}" for c in CLASSES] + ["op:rotate", "op:bootstrap", "op:badfit", "op:serialize", "op:compute", "op:transform_other"],
+        "cover": [f"cls:{c}" for c in CLASSES] + ["cfg:raw_weights", "op:rotate", "op:bootstrap", "op:badfit", "op:serialize", "op:compute", "op:transform_other"],
     }
 
 
@@ -59,6 +59,9 @@ def cases(tier, seed):
                 i += 1
         out.append(dict(cls=cls, ops=[["fit", 0], ["rotate", 0], ["bootstrap", 0], ["serialize", 0], ["compute", 0], ["fit", 1]], dseed=7))
         out.append(dict(cls=cls, ops=[["fit", 2], ["transform_other", 1], ["badfit", 0], ["fit", 0], ["transform", 0], ["inverse", 0]], dseed=8))
+        # configuration in which the preprocessing chain starts with the user's own object
+        # (no centring / standardising copy in front of the weights): the hostile case for input immutability
+        out.append(dict(cls=cls, cfg="raw_weights", ops=[["fit", 0], ["transform", 0], ["fit", 1], ["fit", 3], ["transform", 3]], dseed=9))
     nrand = 120 if tier == "quick" else 3000
     maxlen = 8 if tier == "quick" else 20
     for j in range(nrand):
@@ -68,7 +71,7 @@ def cases(tier, seed):
         ops = [["fit", int(rng.integers(0, 4))]]
         for _ in range(L - 1):
             ops.append([str(rng.choice(OPS)), int(rng.integers(0, 4))])
-        out.append(dict(cls=cls, ops=ops, dseed=int(rng.integers(0, 1000))))
+        out.append(dict(cls=cls, ops=ops, dseed=int(rng.integers(0, 1000)), cfg=str(rng.choice(["default", "default", "raw_weights"]))))
     return out
 
 
@@ -131,9 +134,11 @@ def _identical(a, b):
     return True
 
 
-def _params(cls):
+def _params(cls, cfg="default"):
     base = {"EOFRotator": "EOF", "MCARotator": "MCA", "CPCCARotator": "CPCCA"}.get(cls, cls)
     kw = zoo.default_kwargs(base, n_modes=2)
+    if cfg == "raw_weights" and base in SINGLE:
+        kw.update(center=False)
     if base == "OPA":
         kw.update(tau_max=2, n_pca_modes=3)
     if base in CROSSC:
@@ -141,11 +146,31 @@ def _params(cls):
     return base, kw
 
 
-def _fit_fresh(cls, data):
-    base, kw = _params(cls)
+def _weights_for(data, cfg, base):
+    """Positive user weights with the structure of every field (None unless the configuration asks for them)."""
+    import xarray as xr
+
+    if cfg != "raw_weights" or base == "multi.CCA":
+        return None
+
+    def one(d, k):
+        if isinstance(d, list):
+            return [one(x, k + i) for i, x in enumerate(d)]
+        if isinstance(d, xr.Dataset):
+            return xr.Dataset({v: one(d[v], k + i) for i, v in enumerate(d.data_vars)})
+        w = xr.ones_like(d.isel(time=0, drop=True).real.astype(float))
+        ramp = 0.5 + (np.arange(w.size).reshape(w.shape) % 5) * 0.4 + 0.1 * k
+        return w * ramp
+
+    return [one(d, i) for i, d in enumerate(data)]
+
+
+def _fit_fresh(cls, data, cfg="default"):
+    base, kw = _params(cls, cfg)
+    w = _weights_for(data, cfg, base)
     if cls in ROT:
-        return zoo.fit(cls, copy.deepcopy(data), "time", kw, rot_kw={"n_modes": 2, "power": 1})
-    return zoo.fit(base, copy.deepcopy(data), "time", kw)
+        return zoo.fit(cls, copy.deepcopy(data), "time", kw, rot_kw={"n_modes": 2, "power": 1}, weights=copy.deepcopy(w))
+    return zoo.fit(base, copy.deepcopy(data), "time", kw, weights=copy.deepcopy(w))
 
 
 def _Q(f, data, with_transform=True):
@@ -238,7 +263,9 @@ def run_case(case, obs):
     cls = case["cls"]
     obs.tag(cls=cls)
     obs.cell(f"cls:{cls}")
-    base, kw = _params(cls)
+    cfg = case.get("cfg", "default")
+    obs.cell(f"cfg:{cfg}")
+    base, kw = _params(cls, cfg)
     cplx = base in zoo.COMPLEX_INPUT_OK
     cross = base in CROSSC
     pool = _pool(case, cplx, cross, nviews=3 if cls == "multi.CCA" else 1)
@@ -248,7 +275,7 @@ def run_case(case, obs):
 
     def ref_for(i):
         if i not in ref_cache:
-            f = _fit_fresh(cls, pool[i])
+            f = _fit_fresh(cls, pool[i], cfg)
             ref_cache[i] = (_Q(f, pool[i]), f)
         return ref_cache[i][0]
 
@@ -267,10 +294,12 @@ def run_case(case, obs):
             tags = {"op": op, "history_has_refit": nfits >= 1, "step_kind": op}
             data = pool[j]
             snap = copy.deepcopy(data)
+            wts = _weights_for(data, cfg, base)
+            wsnap = copy.deepcopy(wts)
             try:
                 if op == "fit":
                     fresh_ref = ref_for(j)  # also proves the data is fittable
-                    _do_fit(model, base, data)
+                    _do_fit(model, base, data, wts)
                     if rot is not None:
                         rot.fit(model)
                     current = j
@@ -280,7 +309,7 @@ def run_case(case, obs):
                 elif op == "badfit":
                     bad = _bad(data)
                     try:
-                        _do_fit(model, base, bad)
+                        _do_fit(model, base, bad, wts)
                         obs.check("isolated_nan_fit_raises", False, "fit on data with an isolated NaN returned", tags=dict(tags, symptom="bad_fit_accepted"))
                     except Exception:
                         pass
@@ -339,8 +368,15 @@ def run_case(case, obs):
                     "user_input_unmodified",
                     _identical(data, snap),
                     f"user input object modified by '{op}' (history {hist})",
-                    tags=dict(tags, symptom="input_mutated"),
+                    tags=dict(tags, symptom="input_mutated", cfg=cfg),
                 )
+                if wts is not None:
+                    obs.check(
+                        "user_weights_unmodified",
+                        _identical(wts, wsnap),
+                        f"user weights object modified by '{op}' (history {hist})",
+                        tags=dict(tags, symptom="weights_mutated", cfg=cfg),
+                    )
             # ---- compare answers with the sequential specification -------------------------------
             fa = _facade(cls, base, model, rot)
             got = _Q(fa, pool[current])
@@ -350,17 +386,18 @@ def run_case(case, obs):
     # fresh-vs-fresh: the reference itself must be reproducible, otherwise the comparison above is meaningless
     if ref_cache:
         i = sorted(ref_cache)[0]
-        f2 = _fit_fresh(cls, pool[i])
+        f2 = _fit_fresh(cls, pool[i], cfg)
         _cmp(obs, "fresh_vs_fresh", _Q(f2, pool[i]), ref_cache[i][0], {"op": "reference_reproducibility"})
 
 
-def _do_fit(model, base, data):
+def _do_fit(model, base, data, weights=None):
     if base in CROSSC:
-        model.fit(data[0], data[1], dim="time")
+        wk = {"weights_X": weights[0], "weights_Y": weights[1]} if weights else {}
+        model.fit(data[0], data[1], dim="time", **wk)
     elif base == "multi.CCA":
         model.fit(list(data), dim="time")
     else:
-        model.fit(data[0], dim="time")
+        model.fit(data[0], dim="time", **({"weights": weights[0]} if weights else {}))
 
 
 def _facade(cls, base, model, rot):
